@@ -303,7 +303,8 @@ def run_spec(arg):
                     break
             if out["result"] == "violation":
                 break
-    if out["result"] == "holds":
+    if out["result"] in ("holds", "inconclusive"):
+        # (native runs do not depend on whether the symbolic run reached a verdict)
         U.validate_native(E, paths, lv, lambda vals: concrete_check(spec, spaced, vals, w), out, nmax=1)
         if out["result"] == "holds":
             # floats are reals in the symbolic model; the property also promises rel. 1e-12 for integers up to 64 bits, so two
